@@ -15,7 +15,7 @@ mode = ""
 if r.returncode != 0:
     r3 = sh(f"git -C /repo apply --3way {patch}")
     if r3.returncode != 0:
-        print("PATCH-DOES-NOT-APPLY", d, r.stdout[-500:]); sh("git -C /repo checkout -- . ; git -C /repo reset -q"); sys.exit(3)
+        print("PATCH-DOES-NOT-APPLY", d, r.stdout[-500:]); sh("git -C /repo reset -q --hard HEAD"); sys.exit(3)
     mode = "(3way)"
     sh("git -C /repo reset -q")
 else:
